@@ -229,6 +229,12 @@ class Stmts(Calls):
                 if isinstance(obj, Raised):
                     yield s, Ctl('raise', obj.exc)
                     continue
+                if isinstance(obj, V) and obj.ty.kind == 'cls':
+                    # value classes are modelled as immutable: a write is a frame violation of the enclosing function
+                    self.oblige(s, z3.BoolVal(False), "%s:frame" % (self.current or s.frame.qualname),
+                                "line %s assigns to attribute %s of a %s object" % (tgt.lineno, tgt.attr, obj.ty.args[0]))
+                    yield s, None
+                    continue
                 if not isinstance(obj, Ref) or s.heap[obj.loc].kind != 'obj':
                     raise Outside("attribute assignment on a non-heap value at line %s" % tgt.lineno)
                 h = s.heap[obj.loc]
@@ -550,9 +556,8 @@ class Stmts(Calls):
         self.havoc(body_st, written, mutated_refs, node, is_for)
         if is_for:
             body_st.assume(z3.And(i >= 0, self.b(self._lt(i, n))))
+        body_st.frame.vars['!idx:' + spec.index_name] = V(i, INT)
         self.assume_invariant(body_st, spec, V(i, INT), n)
-        if spec.decreases and not is_for:
-            pass
         body_st.trace.append("L%s:loop-body" % node.lineno)
         exits = []      # break paths
         if is_for:
@@ -670,7 +675,13 @@ class Stmts(Calls):
                       % st.frame.qualname)
 
     def invariant_env(self, st, spec, i, n):
-        return {'i': i, spec.index_name: i, 'n': self.lift_int(n) if n is not None else None}
+        env = {}
+        # indices of enclosing loops (declared names), then this loop's own index
+        for k, val in st.frame.vars.items():
+            if isinstance(k, str) and k.startswith('!idx:'):
+                env[k[5:]] = val
+        env[spec.index_name] = i
+        return env
 
     def check_invariant(self, st, spec, i, n, name, node):
         for k, text in enumerate(spec.invariants):
